@@ -317,10 +317,6 @@ var c19FaultNames = []string{"vanish", "truncate", "overwrite-garbage", "replace
 type sliceSource struct {
 	items []*gtfs.Realtime
 	i     int
-	// recycle: every feed is handed out through one and the same envelope struct (a source that decodes into a
-	// reused message, as sources that poll an endpoint do): only the envelope is shared, the trips are each feed's own
-	recycle bool
-	env     gtfs.Realtime
 }
 
 func (s *sliceSource) Next() *gtfs.Realtime {
@@ -328,10 +324,6 @@ func (s *sliceSource) Next() *gtfs.Realtime {
 		return nil
 	}
 	s.i++
-	if s.recycle {
-		s.env = *s.items[s.i-1]
-		return &s.env
-	}
 	return s.items[s.i-1]
 }
 
